@@ -658,7 +658,10 @@ pub(crate) fn rollback_on_drop(
     let payload_copy = payload.clone();
 
     match inner.link.flow_state.try_consume(1) {
-        Ok(_) => {
+        // The delivery-tag comes with the credit, as for every other send on the link. Reading
+        // the delivery-count afterwards gives the tag of the NEXT send, whose outcome would
+        // then be mixed up with the outcome of this discharge.
+        Ok(tag) => {
             let input_handle = match inner.link.input_handle.clone().ok_or(AmqpError::IllegalState)
             {
                 Ok(handle) => handle,
@@ -672,10 +675,6 @@ pub(crate) fn rollback_on_drop(
             };
             let handle = match inner.link.output_handle.clone() {
                 Some(handle) => handle.into(),
-                None => return,
-            };
-            let tag = match inner.link.flow_state.state().lock.try_read() {
-                Some(inner) => inner.delivery_count.to_be_bytes(),
                 None => return,
             };
             let delivery_tag = DeliveryTag::from(tag);
